@@ -624,3 +624,17 @@ Definition psp_cover (ks : keyset) (raw : bytes) : list (Z * Z) :=
 
 (* the hash NewSignedBlob selects from the size of the modulus *)
 Definition psb_hash_of (n : Z) : Z := if bytelen n * 8 =? 4096 then c16_alg_sha384 else c16_alg_sha256.
+
+(* the byte ranges of a key token that NewTokenKey reads: header, exponent and modulus; the
+   signature; the signed prefix.  (A token that does not parse is read entirely.) *)
+Definition token_cover (ks : keyset) (raw : bytes) : list (Z * Z) :=
+  match parse_token_or_root raw with
+  | Ok (k, pos) =>
+    (0, pos) ::
+    match get_key ks (pk_certid k) with
+    | Some sk => [(0, pos + zlen (pk_modulus sk));
+                  (0, u32 (token_header_len + u32 (2 * pk_modsize k) / 8))]
+    | None => []
+    end
+  | _ => [(0, zlen raw)]
+  end.
